@@ -1,5 +1,6 @@
 //! Runs case files on the real a2lfile implementation.
 //! usage: implrun <KIND>   (cases on stdin, one s-expression per line; one answer line each)
+mod c03;
 mod c12;
 mod c13;
 mod c17;
@@ -25,6 +26,7 @@ fn main() {
         }
         let case = Sx::parse(&line);
         let res = match kind.as_str() {
+            "C03" => c03::run(&case),
             "C12" => c12::run(&case),
             "C13" => c13::run(&case),
             "C17" => c17::run(&case),
